@@ -144,6 +144,14 @@ def step (_ : Unit) (ws : List String) : Unit × String :=
     match pre.toNat?, ns.mapM String.toNat? with
     | some p, some ns => ((), alIndex p ns)
     | _, _ => bad
+  | ["sbuf", flags, limit, retries, hx] =>
+    match flags.toNat?, limit.toNat?, retries.toNat?, bytesOfHex hx with
+    | some fl, some lim, some n, some inp => ((), runStreamBuf B fl lim n inp)
+    | _, _, _, _ => bad
+  | ["ibuf", limit, retries, hx] =>
+    match limit.toNat?, retries.toNat?, bytesOfHex hx with
+    | some lim, some n, some inp => ((), runIndexBufRetry B lim n inp)
+    | _, _, _ => bad
   | [op, t, bs, ch, _] =>
     if op == "al_mtenc" ∨ op == "al_mtsat" then
       match t.toNat?, bs.toNat?, parseChain ch with
